@@ -26,7 +26,7 @@ Qed.
 Lemma ctrans_kind i t s r : s_kind (ctrans i t s r) = s_kind s.
 Proof.
   unfold ctrans, adopt. destruct (s_kind s) eqn:E; cbn; auto.
-  all: match goal with |- context [if ?b then _ else _] => destruct b end; cbn; auto.
+  all: repeat match goal with |- context [if ?b then _ else _] => destruct b end; cbn; auto.
 Qed.
 
 Lemma creinit_kind f i t s : s_kind (creinit f i t s) = s_kind s.
